@@ -105,6 +105,20 @@ def run(ctx):
     else:
         ctx.violation("harness does not build against /repo", {"correspondence": "C23", "log": getattr(ctx, "hx_log", "")[-2000:]},
                       tag="build", found_input=False)
+    # legacy folders (built by the real V1 writer from a history) in which a key sits in more than one segment
+    if not c.err:
+        cur = ""
+        for i, op in enumerate(c.ops):
+            if op.startswith("case "):
+                cur = op
+            elif op.startswith("mig ") and cur.split(" ")[2:3] and cur.split(" ")[2] in ("history", "overflow") and " | folder=" in op:
+                keys = re.findall(r"([0-9a-f]*)=[0-9a-f]+", op.split(" | folder=")[1])
+                if len(keys) != len(set(keys)) and "C23-v1-overflow-duplicates-key" not in extra:
+                    dupk = sorted(set(k for k in keys if keys.count(k) > 1))[:3]
+                    extra["C23-v1-overflow-duplicates-key"] = {
+                        "ops": [cur, op[:600]], "impl": [cur, c.impl[i] if i < len(c.impl) else ""], "model": [cur, c.model[i] if i < len(c.model) else ""],
+                        "correspondence": "C23", "finding": "C23-v1-overflow-duplicates-key",
+                        "what_fails": "the V1 writer left keys %s in more than one chunk: the legacy load of this folder is not a function" % [bytes.fromhex(k).decode() for k in dupk]}
     K.decide_standard(ctx, corrs, FINDINGS)
     K.report_mismatch(ctx, spec_violated)
     for fid, rep in sorted(extra.items()):
